@@ -6,7 +6,7 @@
    and, if cj has include expressions on f, one of them is. *)
 From Coq Require Import List NArith ZArith Bool Permutation.
 From BE Require Import Model.GoTypes Model.GoVal Model.Parsers Model.Index Model.Roaring Proofs.RoaringProof.
-From BE Require Gen.IdsGen.
+From BE Require Gen.IdsGen Model.Spec Proofs.RoaringHolders Proofs.RoaringSpec.
 Import ListNotations.
 
 (* END TO END, default containers: for ANY accepted document set with distinct ids over any non-empty
@@ -54,8 +54,58 @@ Proof. exact rc_retrieve_default. Qed.
 Theorem C03_refuted_nofields : forall q, sc_retrieve [] q fresh_scanner = POk fresh_scanner.
 Proof. exact sc_retrieve_nofields. Qed.
 
+(* END TO END, ANY MIX of default and pattern containers (Proofs/RoaringHolders.v): the same exactness with the
+   satisfaction rule conj_sat_r -- on a pattern field: the expression's keywords against the query text (one
+   string, or the strings joined by one space; no text = empty text), an empty keyword never matches; no exclude
+   expression hit and, if there are include expressions, one of them hit *)
+Theorem C03_roaring_index_exact_any_container : forall b0 ds b os q s d k cj x,
+  RoaringHolders.all_new_r (rb_conts b0) -> rb_conts b0 <> [] ->
+  radd_documents b0 ds = (b, os) -> Forall (eq AddOk) os -> NoDup (map d_id ds) ->
+  In d ds -> nth_error (d_conjs d) k = Some cj ->
+  IdsGen.NewConjunctionID (Z.of_nat k) (d_id d) = Some x ->
+  sc_retrieve (rb_conts b) q fresh_scanner = POk s ->
+  bm_mem x (sc_res s) = RoaringHolders.conj_sat_r q cj (rb_conts b).
+Proof. exact RoaringHolders.roaring_index_correct_r. Qed.
+
+(* AGAINST THE SPECIFICATION (Model/Spec.v; Proofs/RoaringSpec.v): for any builder with at least one configured
+   field (default or pattern container, any parser), any accepted document set and any supported assignment, the
+   fresh scanner's retrieval succeeds and a conjunction id is in the raw result iff the specification's sat_conj
+   says the conjunction is satisfied; nothing else is in it.  (doc_good_r / asg_good_r: values are Go values the
+   model represents exactly and the assigned values denote something; see the witnesses in RoaringSpec.SpecWitness
+   for why each hypothesis is needed.  Zero configured fields: C03_refuted_nofields, finding F14.) *)
+Theorem C03_roaring_index_exact_against_spec : forall b0 b ds os parsers q,
+  RoaringHolders.all_new_r (rb_conts b0) -> rb_conts b0 <> [] -> NoDup (map fst (rb_conts b0)) ->
+  radd_documents b0 ds = (b, os) -> Forall (eq AddOk) os -> NoDup (map d_id ds) ->
+  (forall d cj, In d ds -> In cj (d_conjs d) -> NoDup (map fst cj)) ->
+  (forall d, In d ds -> RoaringSpec.doc_good_r (RoaringSpec.conts_fields (rb_conts b0)) d) ->
+  RoaringSpec.asg_good_r (RoaringSpec.conts_fields (rb_conts b0)) q ->
+  exists s, sc_retrieve (rb_conts b) q fresh_scanner = POk s /\
+    (forall d k cj x sc, In d ds -> nth_error (d_conjs d) k = Some cj ->
+       IdsGen.NewConjunctionID (Z.of_nat k) (d_id d) = Some x ->
+       Spec.conj_sem (RoaringSpec.conts_fields (rb_conts b0)) parsers cj = Some sc ->
+       (bm_mem x (sc_res s) = true <-> Spec.sat_conj (RoaringSpec.conts_fields (rb_conts b0)) parsers q sc = Some true)) /\
+    (forall x, bm_mem x (sc_res s) = true ->
+       exists d k cj, In d ds /\ nth_error (d_conjs d) k = Some cj /\ IdsGen.NewConjunctionID (Z.of_nat k) (d_id d) = Some x).
+Proof. exact RoaringSpec.roaring_index_correct_spec. Qed.
+
+(* ... the raw result, as (document, position) pairs, is a permutation of the specification's sat_hits *)
+Theorem C03_roaring_raw_result_is_the_specifications : forall b0 b ds os parsers q pol,
+  RoaringHolders.all_new_r (rb_conts b0) -> rb_conts b0 <> [] -> NoDup (map fst (rb_conts b0)) ->
+  radd_documents b0 ds = (b, os) -> Forall (eq AddOk) os -> NoDup (map d_id ds) ->
+  (forall d cj, In d ds -> In cj (d_conjs d) -> NoDup (map fst cj)) ->
+  (forall d, In d ds -> RoaringSpec.doc_good_r (RoaringSpec.conts_fields (rb_conts b0)) d) ->
+  RoaringSpec.asg_good_r (RoaringSpec.conts_fields (rb_conts b0)) q ->
+  (forall d cj, In d ds -> In cj (d_conjs d) -> Spec.conj_sem (RoaringSpec.conts_fields (rb_conts b0)) parsers cj <> None) ->
+  exists s spec_hits, sc_retrieve (rb_conts b) q fresh_scanner = POk s /\
+    Spec.sat_hits (RoaringSpec.conts_fields (rb_conts b0)) parsers pol RoaringSpec.rr_docok ds q = Some spec_hits /\
+    Permutation (map RoaringSpec.rr_pair (sc_res s)) (map (fun t : Z * (Z * Z) => (fst t, fst (snd t))) spec_hits).
+Proof. exact RoaringSpec.roaring_sat_hits. Qed.
+
 Print Assumptions C03_roaring_index_exact.
 Print Assumptions C03_roaring_index_sound.
 Print Assumptions C03_fold_is_intersection.
 Print Assumptions C03_any_field_order.
 Print Assumptions C03_default_container_rule.
+Print Assumptions C03_roaring_index_exact_any_container.
+Print Assumptions C03_roaring_index_exact_against_spec.
+Print Assumptions C03_roaring_raw_result_is_the_specifications.
